@@ -1007,7 +1007,7 @@ class OptionStore:
 
     def set_option(self, key: OptionKey, new_value: ElementaryOptionValues, first_invocation: bool = False) -> bool:
         changed = False
-        new_augment = False
+        new_override = False
         error_key = key
         if error_key.subproject == '':
             error_key = error_key.evolve(subproject=None)
@@ -1050,13 +1050,16 @@ class OptionStore:
         if key in self.options:
             old_value = opt.value
             opt.set_value(new_value)
+            # Giving a yielding option its own value is a change even if the
+            # value equals the one it had stored: it stops yielding.
+            new_override = opt.yielding
             opt.yielding = False
         else:
             assert key.subproject is not None
             # A new override is a change even if it equals the inherited
             # value: it must be saved, or the subproject would later follow
             # changes of the parent value.
-            new_augment = key not in self.augments
+            new_override = key not in self.augments
             old_value = self.augments.get(key, opt.value)
             self.augments[key] = new_value
 
@@ -1077,7 +1080,7 @@ class OptionStore:
             self.set_option(dkey, debug, first_invocation)
             self.set_option(optkey, optimization, first_invocation)
 
-        return changed or new_augment
+        return changed or new_override
 
     def set_user_option(self, o: OptionKey, new_value: ElementaryOptionValues, first_invocation: bool = False) -> bool:
         if not self.is_cross and o.is_for_build():
